@@ -64,7 +64,7 @@ theorem e_bits (B : Block) (j : Nat) :
       ((B.xr.testBit j && B.yr.testBit j) ^^ B.pr.testBit j ^^ B.zr.testBit j) := by
   simp [Nat.testBit_xor, Nat.testBit_and]
 
-/-- **gate_views** (single gate, exhaustive over the 2^9 gate states, 3 helpers, 8 single-bit deviations):
+/-- **gate_views** (single gate: every gate state, 3 helpers, 8 single-bit deviations):
 
 * honest execution: each prover's `(u, v)` table indices equal what its left verifier (u) and right
   verifier (v) recompute from their own records, the verifiers' triple satisfies `e′ = ab ⊕ cd ⊕ f`, and
@@ -79,18 +79,9 @@ theorem gate_views (g : Gate) :
     (∀ j f h, rejects (views g (some (j, f))) h = true ↔ h ∈ predictedRejecters j f) ∧
     (∀ j f, predictedRejecters j f ≠ []) ∧
     (∀ j f, f ∉ [Flip.pl, Flip.zr] → j.prev ∈ predictedRejecters j f) := by
-  refine ⟨?_, ?_, ?_, ?_⟩
-  · intro i
-    have h := honest_all (g.x .h0) (g.x .h1) (g.x .h2) (g.y .h0) (g.y .h1) (g.y .h2) (g.p .h0) (g.p .h1) (g.p .h2)
-    rw [← gate_eq_mkGate g] at h
-    have := hid_all _ h i
-    simp only [Bool.and_eq_true, Bool.not_eq_true'] at this
-    exact ⟨this.1.1, this.1.2, this.2⟩
+  refine ⟨fun i => honest_sym g i, ?_, ?_, ?_⟩
   · intro j f h
-    have hc := hid_all _ (hid_all _ (flip_all f g) j) h
-    rw [← hid_mem_iff]
-    cases hr : rejects (views g (some (j, f))) h <;> cases hm : Hid.mem h (predictedRejecters j f) <;>
-      simp [hr, hm] at hc ⊢
+    rw [flip_sym, hid_mem_iff]
   · intro j f; cases f <;> simp [predictedRejecters]
   · intro j f hf; cases f <;> simp [predictedRejecters] at hf ⊢
 
